@@ -325,4 +325,49 @@ void rcu_list<T, M, Alloc>::emplace_back"""}]},
             }""",
         "new": """            node_alloc_trait::destroy(m_list->m_node_alloc, deadNode);
             node_alloc_trait::deallocate(m_list->m_node_alloc, deadNode, 1);"""}]},
+
+    # ---------------------------------------------------------------- prims family
+    {"name": "barrier-wait-on-count", "props": ["C09"], "edits": [{"file": "gmlc/concurrency/Barrier.hpp",
+        "old": "                cv.wait(lck, [this, lGen] { return lGen != generation_; });\n            }\n        }\n        /// wait on the barrier and remove",
+        "new": "                (void)lGen;\n                cv.wait(lck, [this] { return count_ == threshold_; });\n            }\n        }\n        /// wait on the barrier and remove"}]},
+    {"name": "barrier-notify-one", "props": ["C09"], "edits": [{"file": "gmlc/concurrency/Barrier.hpp",
+        "old": "                count_ = threshold_;\n                cv.notify_all();\n            } else {\n                cv.wait(lck, [this, lGen] { return lGen != generation_; });\n            }\n        }\n        /// wait on the barrier and remove",
+        "new": "                count_ = threshold_;\n                cv.notify_one();\n            } else {\n                cv.wait(lck, [this, lGen] { return lGen != generation_; });\n            }\n        }\n        /// wait on the barrier and remove"}]},
+    {"name": "barrier-no-count-reset", "props": ["C09"], "edits": [{"file": "gmlc/concurrency/Barrier.hpp",
+        "old": "            --threshold_;\n            if (--count_ <= 0) {\n                generation_++;\n                count_ = threshold_;",
+        "new": "            --threshold_;\n            if (--count_ <= 0) {\n                generation_++;"}]},
+    {"name": "barrier-drop-after-flip", "props": ["C09"], "edits": [{"file": "gmlc/concurrency/Barrier.hpp",
+        "old": "            --threshold_;\n            if (--count_ <= 0) {\n                generation_++;\n                count_ = threshold_;\n                cv.notify_all();",
+        "new": "            if (--count_ <= 0) {\n                generation_++;\n                count_ = threshold_;\n                --threshold_;\n                cv.notify_all();"}]},
+    {"name": "barrier-no-mutex", "props": ["C09"], "edits": [{"file": "gmlc/concurrency/Barrier.hpp",
+        "old": "        void wait()\n        {\n            std::unique_lock<std::mutex> lck(mtx);\n            auto lGen = generation_;\n            if (--count_ <= 0) {\n                generation_++;\n                count_ = threshold_;\n                cv.notify_all();",
+        "new": "        void wait()\n        {\n            std::unique_lock<std::mutex> lck(mtx, std::defer_lock);\n            auto lGen = generation_;\n            if (--count_ <= 0) {\n                generation_++;\n                count_ = threshold_;\n                cv.notify_all();\n                return;\n            }\n            lck.lock();\n            if (false) {"}]},
+    {"name": "latch-arrive-no-mutex", "props": ["C10"], "edits": [{"file": "gmlc/concurrency/Latch.hpp",
+        "old": "            std::unique_lock<std::mutex> lck(mtx);\n            --counter_;",
+        "new": "            --counter_;"}]},
+    {"name": "latch-notify-one", "props": ["C10"], "edits": [{"file": "gmlc/concurrency/Latch.hpp",
+        "old": "                cv.notify_all();", "new": "                cv.notify_one();"}]},
+    {"name": "latch-open-early", "props": ["C10"], "edits": [{"file": "gmlc/concurrency/Latch.hpp",
+        "old": "            if (counter_ > 0) {\n                std::unique_lock<std::mutex> lck(mtx);\n                while (counter_.load() > 0) {",
+        "new": "            if (counter_ > 1) {\n                std::unique_lock<std::mutex> lck(mtx);\n                while (counter_.load() > 1) {"}]},
+    {"name": "latch-if-not-while", "props": ["C10"], "edits": [{"file": "gmlc/concurrency/Latch.hpp",
+        "old": "                while (counter_.load() > 0) {", "new": "                if (counter_.load() > 0) {"}]},
+    {"name": "latch-arrive-waits", "props": ["C10"], "edits": [{"file": "gmlc/concurrency/Latch.hpp",
+        "old": "            if (counter_ == 0) {\n                cv.notify_all();\n            }\n        }",
+        "new": "            if (counter_ == 0) {\n                cv.notify_all();\n            }\n            while (counter_.load() > 0) {\n                cv.wait(lck);\n            }\n        }"}]},
+    {"name": "tv-trigger-no-lock", "props": ["C11"], "edits": [{"file": "gmlc/concurrency/TriggerVariable.hpp",
+        "old": "        std::lock_guard<std::mutex> lock(triggerLock);\n        triggered.store(true);",
+        "new": "        triggered.store(true);"}]},
+    {"name": "tv-notify-before-state", "props": ["C11"], "edits": [{"file": "gmlc/concurrency/TriggerVariable.hpp",
+        "old": "        std::lock_guard<std::mutex> lock(activeLock);\n        activated = true;\n        cv_active.notify_all();",
+        "new": "        cv_active.notify_all();\n        std::lock_guard<std::mutex> lock(activeLock);\n        activated = true;"}]},
+    {"name": "tv-reset-no-trigger", "props": ["C11"], "edits": [{"file": "gmlc/concurrency/TriggerVariable.hpp",
+        "old": "            while (!triggered.load(std::memory_order_acquire)) {\n                lk.unlock();\n                trigger();\n                lk.lock();\n            }\n",
+        "new": ""}]},
+    {"name": "tv-wait-no-predicate", "props": ["C11"], "edits": [{"file": "gmlc/concurrency/TriggerVariable.hpp",
+        "old": "            cv_trigger.wait(lk, [this] { return triggered.load(); });",
+        "new": "            cv_trigger.wait(lk);"}]},
+    {"name": "tv-trigger-inactive-sets", "props": ["C11"], "edits": [{"file": "gmlc/concurrency/TriggerVariable.hpp",
+        "old": "        if (!activated.load()) {\n            return false;\n        }\n        std::lock_guard<std::mutex> lock(triggerLock);\n        triggered.store(true);",
+        "new": "        std::lock_guard<std::mutex> lock(triggerLock);\n        triggered.store(true);\n        if (!activated.load()) {\n            return false;\n        }"}]},
 ]
